@@ -53,7 +53,7 @@ func builtinNumberToFixed(call FunctionCall) Value {
 	if 20 < precision || 0 > precision {
 		panic(call.runtime.panicRangeError("toFixed() precision must be between 0 and 20"))
 	}
-	if call.This.IsNaN() {
+	if call.This.isNaN() {
 		return stringValue("NaN")
 	}
 	if value := call.This.float64(); math.Abs(value) >= 1e21 {
@@ -63,7 +63,7 @@ func builtinNumberToFixed(call FunctionCall) Value {
 }
 
 func builtinNumberToExponential(call FunctionCall) Value {
-	if call.This.IsNaN() {
+	if call.This.isNaN() {
 		return stringValue("NaN")
 	}
 	precision := float64(-1)
@@ -77,7 +77,7 @@ func builtinNumberToExponential(call FunctionCall) Value {
 }
 
 func builtinNumberToPrecision(call FunctionCall) Value {
-	if call.This.IsNaN() {
+	if call.This.isNaN() {
 		return stringValue("NaN")
 	}
 	value := call.Argument(0)
@@ -95,7 +95,7 @@ func builtinNumberIsNaN(call FunctionCall) Value {
 	if len(call.ArgumentList) < 1 {
 		return boolValue(false)
 	}
-	return boolValue(call.Argument(0).IsNaN())
+	return boolValue(call.Argument(0).isNaN())
 }
 
 func builtinNumberToLocaleString(call FunctionCall) Value {
